@@ -31,7 +31,8 @@ LEVEL = "fault_enumeration"
 EXHAUSTIVE = False
 RULE = ("a case = (client transport websocket|rawsocket, serializer, behaviour of each user callback, step sequence); "
         "tree family: ALL step sequences of length <= L (quick: L=4 with every single reachable callback deviation, L=5 "
-        "with default callbacks; thorough: L=8 / L=6 resp. with callback pairs) over {challenge (<=2), welcome, abort, "
+        "with default callbacks; thorough: L=8 with every single deviation, L=5 also with pairs of deviations; default "
+        "callbacks always on both transports, deviating ones on both or on alternating transports) over {challenge (<=2), welcome, abort, "
         "welcome+goodbye coalesced in one read, router goodbye (reply or crossing), leave (<=2), disconnect, requests, one illegal message, "
         "finish own close}, each followed by {clean loss, unclean loss, plain end}, i.e. transport loss after EVERY prefix "
         "of every conversation; kinds family: all 64 subsets of the six request kinds x 9 session endings x 4 onLeave "
@@ -202,7 +203,7 @@ def family_tree(tier, seed):
     if tier == "quick":
         plans = [(4, "singles"), (5, "default-only-new")]
     else:
-        plans = [(6, "singles+pairs"), (8, "singles-new")]
+        plans = [(5, "singles+pairs"), (8, "singles-new")]
     done_len = 0
     for maxlen, what in plans:
         for n, (seq, sts) in enumerate(tree(maxlen, LIM_TREE)):
@@ -219,11 +220,16 @@ def family_tree(tier, seed):
                     modes_list += [p for p in MODE_PAIRS if all(
                         (cb != "onChallenge" or "challenge" in seq) and
                         (cb not in ("onWelcome", "onJoin") or "welcome" in seq or "welcome_goodbye" in seq) for cb in p)]
-            for term in TERMINATORS:
+            both = what in ("singles+pairs", "default-only-new")
+            nsingle = 1 + len(relevant_modes(seq))
+            for ti, term in enumerate(TERMINATORS):
                 if term is not None and seq and seq[-1] == "finish":
                     continue      # the transport is already gone
-                for modes in modes_list:
-                    for tr in TRANSPORTS:
+                for mi, modes in enumerate(modes_list):
+                    # default callbacks: always both transports; deviating callbacks: both transports in the
+                    # deep plans, else one of them (alternating with sequence, terminator, deviation and seed)
+                    trs = TRANSPORTS if ((both and mi < nsingle) or not modes) else [TRANSPORTS[(hh + ti + mi) & 1]]
+                    for tr in trs:
                         yield {"transport": tr, "ser": "json", "modes": modes, "steps": steps + ([term] if term else [])}
         done_len = maxlen
 
@@ -330,7 +336,7 @@ def shards(tier, seed):
             env = {}
             if tier == "thorough" and i % 6 == 5:
                 env["AUTOBAHN_USE_NVX"] = "0"
-            out.append({"name": "%s-%d%s" % (fw, i, "-nonvx" if env else ""), "fw": fw, "env": env, "timeout": 3000,
+            out.append({"name": "%s-%d%s" % (fw, i, "-nonvx" if env else ""), "fw": fw, "env": env, "timeout": 20000,
                         "params": {"part": i, "parts": per_fw, "tier": tier, "seed": seed}})
     return out
 
@@ -376,7 +382,7 @@ def run_shard(params, R):
             continue
         _run_case(case, R, fw, fam, 1999)
     rng = random.Random((seed * 1000003 + part * 7919 + (0 if fw == "tx" else 104729)) & 0xFFFFFFFF)
-    n = 1500 if tier == "quick" else 12000
+    n = 600 if tier == "quick" else 6000
     for _ in range(n):
         _run_case(gen_random(rng), R, fw, "random", 499)
 
